@@ -6,6 +6,12 @@
  *   mode none : never refuse (reference run; prints the request count per phase)
  *   mode one  : refuse exactly the k-th request (requests = alloc + realloc calls, 0-based)
  *   mode from : refuse every request from the k-th on
+ *   mode every: refuse every k-th request (k = period >= 2): failures interleaved with successes, so that retry
+ *               loops and second-chance paths see a refusal again after a grant
+ *   environment OOMH_VARIANT (bits): 1 = open the runtime context through hawk_rtx_openstdwithucstr,
+ *               2 = parse from memory (HAWK_PARSESTD_BCS) and deparse into a string; a directory `incdir` beside
+ *               prog.hawk is set as HAWK_OPT_INCLUDEDIRS
+ *   api <case|all> <mode> : direct enumeration of wrappers/containers/value constructors (harness/oom_api.h)
  * Every outstanding block is tracked (pointer -> serial,size); a free/realloc of a pointer that is
  * not outstanding is counted (badfree) and NOT forwarded.
  *
@@ -56,11 +62,12 @@
 #include <link.h>
 
 /* ------------------------------------------------------------------ injecting allocator */
-enum { M_NONE, M_ONE, M_FROM };
+enum { M_NONE, M_ONE, M_FROM, M_EVERY };
 static int inj_mode = M_NONE;
 static long inj_k = -1;
 static long trace_at = -1; /* OOMH_TRACEAT=<serial>: print a stack trace when this request is made */
 static int opt_tolerant, opt_keeperr, opt_showerr, opt_showout;
+static int opt_variant; /* OOMH_VARIANT bits: 1 = open the rtx through the wide-string API, 2 = parse from memory and deparse to a string */
 
 struct shared_t
 {
@@ -70,6 +77,7 @@ struct shared_t
 	volatile long live;
 	volatile long badfree;
 	volatile int first_fail_phase;
+	volatile long cur_k;    /* api mode: the k being tried (for the crash report) */
 	void* pcs[32];          /* return addresses at the first refused request; symbolised by the parent (cached) */
 	int npcs;
 };
@@ -82,6 +90,9 @@ static struct blk_t tbl[TBL_SIZE]; /* open addressing, tombstone = (void*)1 */
 static long tbl_used;
 
 extern void __sanitizer_print_stack_trace (void);
+/* coverage builds (tools/coverage.py): the forked cases leave through _exit(), which skips the gcov writer */
+extern void __gcov_dump (void) __attribute__((weak));
+static void leave (int code) { if (__gcov_dump) __gcov_dump(); _exit(code); }
 static int load_base_set;
 
 /* the call chain of the first refused request is reported as return addresses relative to the load base of
@@ -116,7 +127,7 @@ static struct blk_t* tbl_find (void* p)
 static void tbl_add (void* p, long serial, size_t size)
 {
 	unsigned i = hptr(p), n;
-	if (tbl_used >= TBL_SIZE - 16) { fprintf(stderr, "oom_h: block table full\n"); _exit(90); }
+	if (tbl_used >= TBL_SIZE - 16) { fprintf(stderr, "oom_h: block table full\n"); leave(90); }
 	for (n = 0; n < TBL_SIZE; n++, i = (i + 1) & (TBL_SIZE - 1))
 	{
 		if (tbl[i].p == NULL || tbl[i].p == (void*)1) { tbl[i].p = p; tbl[i].serial = serial; tbl[i].size = size; tbl_used++; sh->live++; return; }
@@ -128,7 +139,8 @@ static int refuse (void)
 {
 	long me = sh->nreq++;
 	if (me == trace_at) { fprintf(stderr, "---- request #%ld made at:\n", me); __sanitizer_print_stack_trace(); }
-	if ((inj_mode == M_ONE && me == inj_k) || (inj_mode == M_FROM && me >= inj_k))
+	if ((inj_mode == M_ONE && me == inj_k) || (inj_mode == M_FROM && me >= inj_k) ||
+	    (inj_mode == M_EVERY && inj_k >= 2 && (me % inj_k) == inj_k - 1))
 	{
 		if (!sh->hit) { sh->hit = 1; sh->first_fail_phase = sh->phase; sh->npcs = backtrace((void**)sh->pcs, 32); }
 		return 1;
@@ -179,6 +191,9 @@ static void i_free (hawk_mmgr_t* m, void* q)
 	free(q);
 }
 static hawk_mmgr_t inj_mmgr = { i_alloc, i_realloc, i_free, NULL };
+
+static int mode_of (const char* m) { return !strcmp(m, "one") ? M_ONE : !strcmp(m, "from") ? M_FROM : !strcmp(m, "every") ? M_EVERY : M_NONE; }
+static const char* mode_name (int m) { return m == M_ONE ? "one" : m == M_FROM ? "from" : m == M_EVERY ? "every" : "none"; }
 
 /* ------------------------------------------------------------------ life cycle */
 static const char* phase_names[] = { "open", "parse", "rtxopen", "exec", "close", "done" };
@@ -250,17 +265,50 @@ static void life_cycle (struct result_t* r)
 	}
 
 	sh->phase = PH_PARSE; r->reqs_at[PH_PARSE] = sh->nreq;
+	{
+		struct stat stb;
+		if (stat("incdir", &stb) == 0)
+		{
+			/* @include "x" is also looked up in the include directories (hawk_stdgetfileindirs) */
+			static const hawk_ooch_t incdir[] = { 'i','n','c','d','i','r',0 };
+			if (hawk_setopt(hawk, HAWK_OPT_INCLUDEDIRS, incdir) <= -1) { r->failed_phase = PH_PARSE; r->errnum = hawk_geterrnum(hawk); keep_msg(hawk_geterrbmsg(hawk)); goto close_all; }
+		}
+	}
 	memset(psin, 0, sizeof(psin));
-	psin[0].type = HAWK_PARSESTD_FILEB;
-	psin[0].u.fileb.path = "prog.hawk";
-	psin[0].u.fileb.cmgr = HAWK_NULL;
-	psin[1].type = HAWK_PARSESTD_NULL;
-	if (hawk_parsestd(hawk, psin, HAWK_NULL) <= -1) { r->failed_phase = PH_PARSE; r->errnum = hawk_geterrnum(hawk); keep_msg(hawk_geterrbmsg(hawk)); goto close_all; }
+	if (opt_variant & 2)
+	{
+		/* source from memory, deparsed source into a string owned by the caller */
+		static char srcbuf[1 << 16]; hawk_parsestd_t psout; size_t n = 0; FILE* f = fopen("prog.hawk", "r");
+		if (f) { n = fread(srcbuf, 1, sizeof(srcbuf) - 1, f); fclose(f); }
+		psin[0].type = HAWK_PARSESTD_BCS; psin[0].u.bcs.ptr = srcbuf; psin[0].u.bcs.len = n;
+		psin[1].type = HAWK_PARSESTD_NULL;
+		memset(&psout, 0, sizeof(psout)); psout.type = HAWK_PARSESTD_OOCS;
+		if (hawk_parsestd(hawk, psin, &psout) <= -1) { r->failed_phase = PH_PARSE; r->errnum = hawk_geterrnum(hawk); keep_msg(hawk_geterrbmsg(hawk)); goto close_all; }
+		if (psout.u.oocs.ptr) hawk_freemem(hawk, psout.u.oocs.ptr);
+	}
+	else
+	{
+		psin[0].type = HAWK_PARSESTD_FILEB;
+		psin[0].u.fileb.path = "prog.hawk";
+		psin[0].u.fileb.cmgr = HAWK_NULL;
+		psin[1].type = HAWK_PARSESTD_NULL;
+		if (hawk_parsestd(hawk, psin, HAWK_NULL) <= -1) { r->failed_phase = PH_PARSE; r->errnum = hawk_geterrnum(hawk); keep_msg(hawk_geterrbmsg(hawk)); goto close_all; }
+	}
 
 	sh->phase = PH_RTXOPEN; r->reqs_at[PH_RTXOPEN] = sh->nreq;
-	icf[0] = "data.txt"; icf[1] = HAWK_NULL;
-	ocf[0] = "console.out"; ocf[1] = HAWK_NULL;
-	rtx = hawk_rtx_openstdwithbcstr(hawk, 0, "oomh", icf, ocf, HAWK_NULL);
+	if (opt_variant & 1)
+	{
+		static hawk_uch_t uid[] = { 'o','o','m','h',0 }, uin[] = { 'd','a','t','a','.','t','x','t',0 }, uout[] = { 'c','o','n','s','o','l','e','.','o','u','t',0 };
+		hawk_uch_t* uicf[2]; hawk_uch_t* uocf[2];
+		uicf[0] = uin; uicf[1] = HAWK_NULL; uocf[0] = uout; uocf[1] = HAWK_NULL;
+		rtx = hawk_rtx_openstdwithucstr(hawk, 0, uid, uicf, uocf, HAWK_NULL);
+	}
+	else
+	{
+		icf[0] = "data.txt"; icf[1] = HAWK_NULL;
+		ocf[0] = "console.out"; ocf[1] = HAWK_NULL;
+		rtx = hawk_rtx_openstdwithbcstr(hawk, 0, "oomh", icf, ocf, HAWK_NULL);
+	}
 	if (!rtx) { r->failed_phase = PH_RTXOPEN; r->errnum = hawk_geterrnum(hawk); keep_msg(hawk_geterrbmsg(hawk)); goto close_all; }
 
 	sh->phase = PH_EXEC; r->reqs_at[PH_EXEC] = sh->nreq;
@@ -321,7 +369,7 @@ static void child_run (int out_fd, const char* workdir, int is_ref)
 		sh->hit ? phase_names[sh->first_fail_phase] : "-",
 		leaks[0] ? " leak=" : "", leaks,
 		r.reqs_at[0], r.reqs_at[1], r.reqs_at[2], r.reqs_at[3], r.reqs_at[4], r.reqs_at[5], errmsg_buf[0] ? errmsg_buf : "-");
-	if (write(out_fd, line, strlen(line)) < 0) _exit(91);
+	if (write(out_fd, line, strlen(line)) < 0) leave(91);
 }
 
 static int rm_cb (const char* p, const struct stat* sb, int flag, struct FTW* f) { remove(p); return 0; }
@@ -365,7 +413,7 @@ static void top_frame (const char* errfile, char* kind, size_t kcap, char* top, 
 static int run_case (const char* workdir, int mode, long k, int is_ref)
 {
 	int pfd[2]; pid_t pid; int st; char sub[512], errfile[600]; char line[2048], site[512]; ssize_t n; size_t len = 0;
-	const char* mname = mode == M_ONE ? "one" : mode == M_FROM ? "from" : "none";
+	const char* mname = mode_name(mode);
 
 	memset((void*)sh, 0, sizeof(*sh));
 	snprintf(sub, sizeof(sub), "%s/w.%d", workdir, (int)getpid());
@@ -379,9 +427,9 @@ static int run_case (const char* workdir, int mode, long k, int is_ref)
 	{
 		int efd;
 		close(pfd[0]);
-		if (chdir(sub) < 0) _exit(92);
-		if (symlink("../prog.hawk", "prog.hawk") < 0 || symlink("../data.txt", "data.txt") < 0) _exit(93);
-		symlink("../inc.hawk", "inc.hawk");
+		if (chdir(sub) < 0) leave(92);
+		if (symlink("../prog.hawk", "prog.hawk") < 0 || symlink("../data.txt", "data.txt") < 0) leave(93);
+		symlink("../inc.hawk", "inc.hawk"); symlink("../incdir", "incdir");
 		efd = open("stderr.txt", O_WRONLY | O_CREAT | O_TRUNC, 0600);
 		if (efd >= 0) { dup2(efd, 2); close(efd); }
 		{ int nfd = open("/dev/null", O_RDWR); if (nfd >= 0) { dup2(nfd, 0); dup2(nfd, 1); close(nfd); } }
@@ -391,9 +439,9 @@ static int run_case (const char* workdir, int mode, long k, int is_ref)
 		{
 			/* a program that fails before it prints anything (corpus family e*: the unconstrained run ends in a
 			 * non-memory error) has no console file: its reference output is empty */
-			if (rename("console.out", "../ref.out") < 0) { int fd = open("../ref.out", O_WRONLY | O_CREAT | O_TRUNC, 0600); if (fd < 0) _exit(94); close(fd); }
+			if (rename("console.out", "../ref.out") < 0) { int fd = open("../ref.out", O_WRONLY | O_CREAT | O_TRUNC, 0600); if (fd < 0) leave(94); close(fd); }
 		}
-		_exit(0);
+		leave(0);
 	}
 	close(pfd[1]);
 	while ((n = read(pfd[0], line + len, sizeof(line) - 1 - len)) > 0) len += n;
@@ -436,13 +484,73 @@ static int run_case (const char* workdir, int mode, long k, int is_ref)
 	return 0;
 }
 
+/* ------------------------------------------------------------------ direct API cases */
+#include "oom_api.h"
+
+static int api_run (const char* which, int mode, long kmax)
+{
+	size_t ci; int ran = 0;
+	for (ci = 0; ci < sizeof(api_cases) / sizeof(api_cases[0]); ci++)
+	{
+		struct api_case_t* c = &api_cases[ci]; pid_t pid; int st;
+		if (strcmp(which, "all") && strcmp(which, c->name)) continue;
+		ran++;
+		fflush(stdout);
+		memset((void*)sh, 0, sizeof(*sh));
+		pid = fork();
+		if (pid == 0)
+		{
+			static hawk_gem_t gem; struct api_ctx a; long k; hawk_errnum_t en;
+			alarm(120);
+			memset(&gem, 0, sizeof(gem)); gem.mmgr = &inj_mmgr; gem.cmgr = hawk_get_cmgr_by_id(HAWK_CMGR_UTF8);
+			memset(&a, 0, sizeof(a)); a.gem = &gem;
+			inj_mode = M_NONE;
+			if (c->need_rtx)
+			{
+				hawk_parsestd_t psin[2]; static const char src[] = "function addup(a, b) { x[a] = b; return length(a) + b; } BEGIN { y = 1 }";
+				a.hawk = hawk_openstdwithmmgr(&inj_mmgr, 0, gem.cmgr, &en);
+				if (!a.hawk) leave(95);
+				memset(psin, 0, sizeof(psin)); psin[0].type = HAWK_PARSESTD_BCS; psin[0].u.bcs.ptr = (hawk_bch_t*)src; psin[0].u.bcs.len = sizeof(src) - 1; psin[1].type = HAWK_PARSESTD_NULL;
+				if (hawk_parsestd(a.hawk, psin, HAWK_NULL) <= -1) leave(95);
+				a.rtx = hawk_rtx_openstdwithbcstr(a.hawk, 0, "api", HAWK_NULL, HAWK_NULL, HAWK_NULL);
+				if (!a.rtx) leave(95);
+			}
+			for (k = (mode == M_EVERY ? 2 : 0); k < kmax; k++)
+			{
+				long live0 = sh->live; int rc;
+				sh->nreq = 0; sh->hit = 0; a.errnum = 0; api_msg[0] = '\0';
+				inj_mode = mode; inj_k = k; sh->cur_k = k;
+				rc = c->fn(&a);
+				inj_mode = M_NONE;
+				printf("api=%s scope=%s mode=%s k=%ld rc=%s errnum=%d live=%ld badfree=%ld hit=%d nreq=%ld%s%s\n", c->name, c->need_rtx ? "rtx" : "gem", mode_name(mode), k,
+					rc == 0 ? "ok" : rc == -1 ? "fail" : "BROKEN", a.errnum, (long)(sh->live - live0), (long)sh->badfree, sh->hit, (long)sh->nreq,
+					api_msg[0] ? " msg=" : "", api_msg);
+				fflush(stdout);
+				if (mode == M_NONE || (!sh->hit && mode != M_EVERY)) break;
+				if (mode == M_EVERY && k >= 48) break;
+			}
+			/* the objects the cases worked on must still close cleanly */
+			if (a.rtx) hawk_rtx_close(a.rtx);
+			if (a.hawk) hawk_close(a.hawk);
+			printf("api=%s mode=%s k=end rc=closed errnum=0 live=%ld badfree=%ld hit=0 nreq=0\n", c->name, mode_name(mode), (long)sh->live, (long)sh->badfree);
+			fflush(stdout);
+			leave(0);
+		}
+		waitpid(pid, &st, 0);
+		if (!(WIFEXITED(st) && WEXITSTATUS(st) == 0))
+			printf("api=%s mode=%s k=%ld rc=CRASH errnum=-1 live=0 badfree=0 hit=%d nreq=%ld status=%s%d\n", c->name, mode_name(mode), (long)sh->cur_k, sh->hit, (long)sh->nreq,
+				WIFSIGNALED(st) ? "sig" : "exit", WIFSIGNALED(st) ? WTERMSIG(st) : WEXITSTATUS(st));
+	}
+	return ran ? 0 : 2;
+}
+
 /* ------------------------------------------------------------------ direct constructor probes */
 static int ctor_probe (const char* which, int mode, long k)
 {
 	static struct shared_t local;
 	static hawk_prm_t prm; static int have_prm;
 	int rc = 0; long live_end;
-	const char* mname = mode == M_ONE ? "one" : mode == M_FROM ? "from" : "none";
+	const char* mname = mode_name(mode);
 	sh = &local;
 	if (!have_prm)
 	{
@@ -531,6 +639,31 @@ static int ecs_main (void)
 			free(buf);
 			ecs_dump(&b, r);
 		}
+		else if (!strcmp(op, "nrcat") && n >= 3)
+		{
+			unsigned long len = strtoul(a1, NULL, 10), i; hawk_oow_t r;
+			char* buf = malloc(len + 1);
+			for (i = 0; i < len; i++) buf[i] = 'a' + (ctr + i) % 26;
+			ctr += len;
+			r = hawk_becs_nrcat(&b, buf, len);
+			free(buf);
+			ecs_dump(&b, r);
+		}
+		else if (!strcmp(op, "nccat") && n >= 3) ecs_dump(&b, hawk_becs_nccat(&b, 'z', strtoul(a1, NULL, 10)));
+		else if (!strcmp(op, "del") && n >= 3) { orc = ""; ecs_dump(&b, hawk_becs_del(&b, strtoul(a1, NULL, 10), strtoul(a2, NULL, 10))); }
+		else if (!strcmp(op, "amend"))
+		{
+			/* amend <pos> <len> <n> <orc> */
+			unsigned long pos, alen, len, i; char o4[4000]; hawk_oow_t r; char* buf;
+			if (sscanf(line, "%*s %lu %lu %lu %3999s", &pos, &alen, &len, o4) != 4) { printf("bad-op\n"); continue; }
+			orc = strcmp(o4, "-") ? o4 : "";
+			buf = malloc(len + 1);
+			for (i = 0; i < len; i++) buf[i] = 'a' + (ctr + i) % 26;
+			buf[len] = '\0'; ctr += len;
+			r = hawk_becs_amend(&b, pos, alen, buf);
+			free(buf);
+			ecs_dump(&b, r);
+		}
 		else if (!strcmp(op, "setcapa") && n >= 3) ecs_dump(&b, hawk_becs_setcapa(&b, strtoul(a1, NULL, 10)));
 		else if (!strcmp(op, "setlen") && n >= 3) ecs_dump(&b, hawk_becs_setlen(&b, strtoul(a1, NULL, 10)));
 		else if (!strcmp(op, "clear")) { hawk_becs_clear(&b); ecs_dump(&b, 0); }
@@ -546,16 +679,24 @@ int main (int argc, char* argv[])
 	const char* t = getenv("OOMH_TRACEAT");
 	if (t) trace_at = atol(t);
 	opt_tolerant = !!getenv("OOMH_TOLERANT"); opt_keeperr = !!getenv("OOMH_KEEPERR"); opt_showerr = !!getenv("OOMH_SHOWERR"); opt_showout = !!getenv("OOMH_SHOWOUT");
+	if (getenv("OOMH_VARIANT")) opt_variant = atoi(getenv("OOMH_VARIANT"));
 	/* ENVIRON is built from the process environment with one allocation group per variable:
 	 * make the request numbering independent of the caller's environment */
 	clearenv();
 	setenv("OOMH", "1", 1); setenv("LC_ALL", "C.UTF-8", 1);
 	setvbuf(stdout, NULL, _IOLBF, 0);
 	if (argc >= 2 && !strcmp(argv[1], "ecs")) return ecs_main();
+	if (argc >= 4 && !strcmp(argv[1], "api"))
+	{
+		/* api <case|all> <none|one|from|every> [<kmax>] */
+		sh = mmap(NULL, sizeof(*sh), PROT_READ | PROT_WRITE, MAP_SHARED | MAP_ANONYMOUS, -1, 0);
+		if (sh == MAP_FAILED) { perror("mmap"); return 2; }
+		return api_run(argv[2], mode_of(argv[3]), argc >= 5 ? atol(argv[4]) : 100000);
+	}
 	if (argc >= 6 && !strcmp(argv[1], "ctor"))
 	{
 		/* ctor <which> <none|one|from> <k_lo> <k_hi> */
-		int mode = !strcmp(argv[3], "one") ? M_ONE : !strcmp(argv[3], "from") ? M_FROM : M_NONE;
+		int mode = mode_of(argv[3]);
 		long lo = atol(argv[4]), hi = atol(argv[5]), k;
 		for (k = lo; k < hi; k++) { int x = ctor_probe(argv[2], mode, k); if (x) return x; }
 		return 0;
@@ -567,7 +708,7 @@ int main (int argc, char* argv[])
 	if (argc >= 3 && !strcmp(argv[1], "ref")) return run_case(argv[2], M_NONE, -1, 1) < 0 ? 2 : 0;
 	if (argc >= 7 && !strcmp(argv[1], "sweep"))
 	{
-		int mode = !strcmp(argv[3], "one") ? M_ONE : !strcmp(argv[3], "from") ? M_FROM : M_NONE;
+		int mode = mode_of(argv[3]);
 		long lo = atol(argv[4]), hi = atol(argv[5]), stride = atol(argv[6]), dense = argc >= 8 ? atol(argv[7]) : 0, k;
 		long off = argc >= 9 ? atol(argv[8]) : 0;
 		if (stride < 1) stride = 1;
@@ -581,7 +722,7 @@ int main (int argc, char* argv[])
 	if (argc >= 5 && !strcmp(argv[1], "sweepl"))
 	{
 		/* sweepl <workdir> <one|from> <file with one k per line> */
-		int mode = !strcmp(argv[3], "one") ? M_ONE : !strcmp(argv[3], "from") ? M_FROM : M_NONE;
+		int mode = mode_of(argv[3]);
 		FILE* f = fopen(argv[4], "r"); char ln[64];
 		if (!f) { perror(argv[4]); return 2; }
 		while (fgets(ln, sizeof(ln), f)) if (ln[0] >= '0' && ln[0] <= '9') { if (run_case(argv[2], mode, atol(ln), 0) < 0) return 2; }
